@@ -218,6 +218,7 @@ class ChordProgression(events_lib.SimpleEventSequence):
     sequence.tempos.add().qpm = qpm
     sequence.ticks_per_quarter = STANDARD_PPQ
 
+    sequence_start_time += self.start_step * seconds_per_step
     current_figure = NO_CHORD
     for step, figure in enumerate(self):
       if figure != current_figure:
